@@ -137,6 +137,24 @@ pub fn run(case: &Value) -> Value {
                 Err(pn) => json!({"param": p, "outcome": "panic", "key": "", "site": pn["file"], "msg": pn["msg"]}),
             };
             items.push(item);
+            // the argument sent under another spelling of the key is no argument for the parameter either: the IR asks for
+            // exactly the reported key (an argument the substitution would not find must not satisfy the check)
+            let other = if p.to_uppercase() != *p { p.to_uppercase() } else { format!("{p}_") };
+            if let Some(v) = args.get(p).cloned().or(Some(ArgValue::Int(0))) {
+                a.insert(other, v);
+            }
+            let store = ctx::RecStore::new(vec![]);
+            let mut compiler = ctx::make_compiler(&env["cfg"]);
+            let res = guarded(|| {
+                pollster::block_on(tx3_resolver::resolve_tx(
+                    AnyTir::V1Beta0(template.clone()), &a, &mut compiler, &store, 3))
+            });
+            items.push(match res {
+                Ok(Err(tx3_resolver::Error::MissingTxArg { key, .. })) => json!({"param": p, "outcome": "missing", "key": key}),
+                Ok(Err(e)) => json!({"param": p, "outcome": format!("respelled:{}", ctx::err_kind(&e)), "key": ""}),
+                Ok(Ok(_)) => json!({"param": p, "outcome": "respelled:compiled", "key": ""}),
+                Err(pn) => json!({"param": p, "outcome": "respelled:panic", "key": "", "site": pn["file"], "msg": pn["msg"]}),
+            });
         }
         events.push(json!({"ev": "Refusals", "items": items}));
     }
